@@ -127,6 +127,14 @@ CHECKS["C17"] = ("other",
     "unwrapped the merge). Not claimed: independence from the order of parameter files.",
     TB % "c17", "monitors + def-use via abstract interpretation of MIR (no execution)", "DESIGN.md §5 C17")
 
+CHECKS["C18"] = ("other",
+    "NOT the computed values (std / dependency primitives at run time). Decided: for the 15 documented functions the tables "
+    "agree (parser name <-> variant <-> printed name round trip, documented arity, variant -> marker -> implementation -> the "
+    "expected primitive); every element-wise function pushes exactly one result per element on every non-error path, unresolved "
+    "entries and unsupported kinds are skipped (None), the produced kind per input kind is the documented one; a failing "
+    "conversion in the parse_* family is an error and never a default value; count counts exactly the non-UnResolved entries.",
+    TB % "c18", "table agreement + per-element monitors via abstract interpretation of MIR (no execution)", "DESIGN.md §5 C18")
+
 NOT_APPLICABLE = {
 }
 
